@@ -1,7 +1,7 @@
 """C19 - ECDSA recovery returns the algebraically determined key or refuses."""
 from hypothesis import strategies as st
 
-from vf.harness import HarnessError, Task, drive, hx, unhx
+from vf.harness import HarnessError, Task, drive, hx, same_by_name, unhx
 from vf.model import kdf, nt, params
 from vf.model.secp import SECP
 from vf.props._secp_common import patched, tiny_curves, to_lib
@@ -47,6 +47,7 @@ def judge(ctx, m, C, sub, case, h, v, r, s, tag):
     try:
         got = tuple(m.ecdsa_raw_recover(h, (v, r, s)))
         if sub == "real":
+            same_by_name(ctx, sub, case, m.ecdsa_raw_recover, (h, (v, r, s)), got, "ecdsa_raw_recover")
             try:
                 got_l = tuple(m.ecdsa_raw_recover(bytearray(h), [v, r, s]))   # list triple, mutable hash
             except TypeError:
